@@ -228,6 +228,11 @@ func minimise(sp *simProc, v *Violation, deadline time.Time) *Violation {
 			replace(dropTask(best.Cases[fi], t))
 		}
 	}
+	// 5b. drop pool entries nothing refers to any more, then any entry not needed
+	if !expired() {
+		replace(compactPool(best.Cases[fi]))
+	}
+	shrinkPool(func() Case { return best.Cases[fi] }, replace, expired)
 	// 6. remove context switches (only meaningful with an explicit schedule)
 	if best.Cases[fi].Spec.Sched.Policy == "explicit" {
 		ex := best.Cases[fi].Spec.Sched.Explicit
@@ -324,6 +329,16 @@ func minimiseRef(sp *simProc, v *Violation, best *Violation, deadline time.Time)
 			}
 		}
 	}
+	for ci := 0; ci < len(best.Cases) && !expired(); ci++ {
+		cand := append([]Case(nil), best.Cases...)
+		cand[ci] = compactPool(best.Cases[ci])
+		try(cand)
+		shrinkPool(func() Case { return best.Cases[ci] }, func(nc Case) bool {
+			cand := append([]Case(nil), best.Cases...)
+			cand[ci] = nc
+			return try(cand)
+		}, expired)
+	}
 	for k := 0; k < 2; k++ {
 		if ok, _, _ := tryCases(sp, best.Cases, v); !ok {
 			fb := *v
@@ -332,4 +347,220 @@ func minimiseRef(sp *simProc, v *Violation, best *Violation, deadline time.Time)
 		}
 	}
 	return best
+}
+
+// opRefs reports which pool indices an operation kind uses.
+func opRefs(k string) (a, b, r, l bool) {
+	switch k {
+	case "cmp":
+		return true, true, false, false
+	case "cont":
+		return true, false, true, false
+	case "vstr":
+		return true, false, false, false
+	case "rstr":
+		return false, false, true, false
+	case "newv":
+		return true, false, true, false
+	case "newr":
+		return true, true, false, false
+	case "sort":
+		return false, false, false, true
+	}
+	return false, false, false, false
+}
+
+// compactPool removes ecosystems, versions and ranges no remaining operation
+// refers to, renumbering the operations. Out-of-range references stay out of
+// range. The caller accepts the result only if the violation persists.
+func compactPool(c Case) Case {
+	d := cloneCase(c)
+	sp := &d.Spec
+	ne := len(sp.Ecos)
+	usedE := make([]bool, ne)
+	usedV := make([]map[int]bool, ne)
+	usedR := make([]map[int]bool, ne)
+	for e := range usedV {
+		usedV[e], usedR[e] = map[int]bool{}, map[int]bool{}
+	}
+	each := func(f func(op *Op)) {
+		for i := range sp.Prewarm {
+			f(&sp.Prewarm[i])
+		}
+		for t := range sp.Tasks {
+			for i := range sp.Tasks[t] {
+				f(&sp.Tasks[t][i])
+			}
+		}
+	}
+	each(func(op *Op) {
+		if op.K == "vers" || op.E < 0 || op.E >= ne {
+			return
+		}
+		usedE[op.E] = true
+		a, b, r, l := opRefs(op.K)
+		if a {
+			usedV[op.E][op.A] = true
+		}
+		if b {
+			usedV[op.E][op.B] = true
+		}
+		if r {
+			usedR[op.E][op.R] = true
+		}
+		if l {
+			for _, i := range op.L {
+				usedV[op.E][i] = true
+			}
+		}
+	})
+	const gone = 9999
+	mapE := make([]int, ne)
+	mapV := make([][]int, ne)
+	mapR := make([][]int, ne)
+	var ecos []EcoPool
+	for e := 0; e < ne; e++ {
+		if !usedE[e] {
+			mapE[e] = -1
+			continue
+		}
+		mapE[e] = len(ecos)
+		ep := EcoPool{Name: sp.Ecos[e].Name, Versions: []string{}, Ranges: []string{}}
+		mapV[e] = make([]int, len(sp.Ecos[e].Versions))
+		for i, s := range sp.Ecos[e].Versions {
+			if usedV[e][i] {
+				mapV[e][i] = len(ep.Versions)
+				ep.Versions = append(ep.Versions, s)
+			} else {
+				mapV[e][i] = gone
+			}
+		}
+		mapR[e] = make([]int, len(sp.Ecos[e].Ranges))
+		for i, s := range sp.Ecos[e].Ranges {
+			if usedR[e][i] {
+				mapR[e][i] = len(ep.Ranges)
+				ep.Ranges = append(ep.Ranges, s)
+			} else {
+				mapR[e][i] = gone
+			}
+		}
+		ecos = append(ecos, ep)
+	}
+	mv := func(e, i int) int {
+		if i >= 0 && i < len(mapV[e]) {
+			return mapV[e][i]
+		}
+		return gone
+	}
+	mr := func(e, i int) int {
+		if i >= 0 && i < len(mapR[e]) {
+			return mapR[e][i]
+		}
+		return gone
+	}
+	each(func(op *Op) {
+		if op.K == "vers" || op.E < 0 || op.E >= ne {
+			return
+		}
+		e := op.E
+		op.A, op.B, op.R = mv(e, op.A), mv(e, op.B), mr(e, op.R)
+		for k := range op.L {
+			op.L[k] = mv(e, op.L[k])
+		}
+		op.E = mapE[e]
+	})
+	sp.Ecos = ecos
+	return d
+}
+
+// dropPoolEntry removes version (isRange=false) or range i of ecosystem e,
+// renumbering references; references to the removed entry go out of range.
+func dropPoolEntry(c Case, e int, isRange bool, i int) Case {
+	d := cloneCase(c)
+	sp := &d.Spec
+	const gone = 9999
+	fix := func(x int) int {
+		switch {
+		case x == i:
+			return gone
+		case x > i && x < gone:
+			return x - 1
+		}
+		return x
+	}
+	if isRange {
+		sp.Ecos[e].Ranges = append(append([]string{}, sp.Ecos[e].Ranges[:i]...), sp.Ecos[e].Ranges[i+1:]...)
+	} else {
+		sp.Ecos[e].Versions = append(append([]string{}, sp.Ecos[e].Versions[:i]...), sp.Ecos[e].Versions[i+1:]...)
+	}
+	each := func(f func(op *Op)) {
+		for k := range sp.Prewarm {
+			f(&sp.Prewarm[k])
+		}
+		for t := range sp.Tasks {
+			for k := range sp.Tasks[t] {
+				f(&sp.Tasks[t][k])
+			}
+		}
+	}
+	each(func(op *Op) {
+		if op.K == "vers" || op.E != e {
+			return
+		}
+		if isRange {
+			op.R = fix(op.R)
+		} else {
+			op.A, op.B = fix(op.A), fix(op.B)
+			for k := range op.L {
+				op.L[k] = fix(op.L[k])
+			}
+		}
+	})
+	return d
+}
+
+// dropEco removes ecosystem e entirely (operations on it become no-ops on a bad index).
+func dropEco(c Case, e int) Case {
+	d := cloneCase(c)
+	sp := &d.Spec
+	sp.Ecos = append(append([]EcoPool{}, sp.Ecos[:e]...), sp.Ecos[e+1:]...)
+	fixOps := func(ops []Op) []Op {
+		var out []Op
+		for _, op := range ops {
+			if op.K != "vers" {
+				if op.E == e {
+					continue
+				}
+				if op.E > e {
+					op.E--
+				}
+			}
+			out = append(out, op)
+		}
+		return out
+	}
+	sp.Prewarm = fixOps(sp.Prewarm)
+	for t := range sp.Tasks {
+		sp.Tasks[t] = fixOps(sp.Tasks[t])
+	}
+	// explicit schedules refer to operation indices; dropping operations here
+	// would shift them, so only offer this reduction for non-explicit schedules
+	return d
+}
+
+// shrinkPool tries to remove pool entries one at a time.
+func shrinkPool(get func() Case, replace func(Case) bool, expired func() bool) {
+	for e := len(get().Spec.Ecos) - 1; e >= 0 && !expired(); e-- {
+		if len(get().Spec.Ecos) > 1 && get().Spec.Sched.Policy != "explicit" {
+			if replace(dropEco(get(), e)) {
+				continue
+			}
+		}
+		for i := len(get().Spec.Ecos[e].Versions) - 1; i >= 0 && !expired(); i-- {
+			replace(dropPoolEntry(get(), e, false, i))
+		}
+		for i := len(get().Spec.Ecos[e].Ranges) - 1; i >= 0 && !expired(); i-- {
+			replace(dropPoolEntry(get(), e, true, i))
+		}
+	}
 }
